@@ -6,11 +6,12 @@ repeated wall time, the hour after a gap, edges within 24 h after a spring-forwa
 than 23 h) and once with the same instants in UTC.  `get` (unlimited and limit 2) and `get_eventcount` must agree
 between the two; the UTC form is what the main streams of harness/c03.py compare with the model.
 
-Signature `C03:window-end-in-fold`: Bucket.get rounds the window end up with `endtime.replace(microsecond=..) +
-timedelta(seconds=..)`; datetime arithmetic returns fold=0, so an end edge given with fold=1 in a zone whose
-utcoffset depends on fold is moved to the FIRST occurrence of that wall time (one offset change earlier) and the
-events in between are missing from `get` (but not from `get_eventcount`, which does not round).  It is an open known
-finding of the unchanged tree (known_findings.json); every other difference is a failing input."""
+Signature `C03:window-end-in-fold` (fixed in /repo by 49e3288, witness w23): Bucket.get rounded the window end up with
+`endtime.replace(microsecond=..) + timedelta(seconds=..)` on the caller's reading; datetime arithmetic returns
+fold=0, so an end edge given with fold=1 in a zone whose utcoffset depends on fold was moved to the FIRST occurrence
+of that wall time (one offset change earlier) and the events in between were missing from `get` (but not from
+`get_eventcount`, which does not round).  Bucket.get now converts an aware edge to UTC before the arithmetic.  The
+signature is kept as the name of that shape of difference; like every other difference it is a failing input."""
 import multiprocessing
 import os
 import shutil
@@ -31,7 +32,11 @@ def _zones():
           ("synth-gap", SynthZone(BASE + 3 * SEC, 60, 120, "gap")),
           ("synth-gap-west", SynthZone(BASE - 2 * SEC, -300, -240, "gap-west")),
           ("fixed+05:30", timezone(timedelta(hours=5, minutes=30))),
-          ("fixed-08:00", timezone(timedelta(hours=-8)))]
+          ("fixed-08:00", timezone(timedelta(hours=-8))),
+          # utcoffsets that are not whole milliseconds: the rounding is done on the UTC reading (49e3288), so the
+          # whole read - forwarded edges, peewee's clip - is the same as for the instants written in UTC
+          ("fixed+00:19:32.0005", timezone(timedelta(minutes=19, seconds=32, microseconds=500))),
+          ("fixed-0.000037", timezone(timedelta(microseconds=-37)))]
     try:
         from zoneinfo import ZoneInfo
         zs += [("Europe/Berlin", ZoneInfo("Europe/Berlin")), ("America/St_Johns", ZoneInfo("America/St_Johns"))]
